@@ -238,14 +238,14 @@ def _nothing_else_appended(ls, name):
     return True
 
 
-def _save_node_case(cls, isolated):
+def _save_node_case(cls, isolated, mode="DD"):
     def build(cx):
         n = cx.name("n")
         h, d, ld, el = cx.real("head"), cx.real("demand"), cx.real("leak_demand"), cx.real("elev")
         node = mk_node(cx, cls, n, _is_isolated=isolated, _head=h, _demand=d, _leak_demand=ld, _elevation=el)
         if isolated:  # ensures of store_results_in_network for an isolated junction (modular precondition)
             cx.assume(cx.t(h) == 0, cx.t(d) == 0, cx.t(ld) == 0)
-        wn = WN2()
+        wn = WN2(options=_opts(cx, mode))      # the saved values do not depend on the demand model (both modes are cases)
         wn.declare_node(n, node)
         nl, ll, nres, lres = _res_maps(cx)
         cx.target(hyd.save_results, wn, nres, lres)
@@ -263,7 +263,7 @@ def _save_node_case(cls, isolated):
                     ("no_other_list_touched", _nothing_else_appended((nl, ll), n)),
                     ("network_state_not_modified", not [w for w in cx.path.writes if not isinstance(w[0], SymMap)])]
         cx.ensure(post)
-    return Case("node:%s,isolated=%s" % (cls.__name__, isolated), build, crosscheck=False, replay="model")
+    return Case("node:%s,isolated=%s%s" % (cls.__name__, isolated, "" if mode == "DD" else ",mode=" + mode), build, crosscheck=False, replay="model")
 
 
 def _coeff_model():
@@ -331,7 +331,7 @@ def _save_link_case(cls, user, internal):
     return Case("link:%s,user=%s,internal=%s" % (cls.__name__, user.name, internal.name), build, crosscheck=False, replay="model")
 
 
-_save_cases = ([_save_node_case(Junction, iso) for iso in (False, True)] + [_save_node_case(Tank, False), _save_node_case(Reservoir, False)] +
+_save_cases = ([_save_node_case(Junction, iso) for iso in (False, True)] + [_save_node_case(Junction, False, "PDD")] + [_save_node_case(Tank, False), _save_node_case(Reservoir, False)] +
                [_save_link_case(c, u, i) for c in (Pipe, HeadPump, PowerPump, PRValve)
                 for (u, i) in ((LinkStatus.Open, LinkStatus.Active), (LinkStatus.Closed, LinkStatus.Active), (LinkStatus.Open, LinkStatus.Closed))])
 
